@@ -144,6 +144,14 @@ CHECKS = {
             "artifacts were already rewritten.",
             "Process death only (no power loss); exhaustive over syscall boundaries of the generated histories, not over all histories.",
             "DESIGN 2/C04"),
+    "C16": ("exploration", "hypothesis+qsim",
+            "PBT over generated job mixes and scripted child behaviours against the real queues (TSan build); invariants over a totally ordered event log",
+            "No counter-example among generated job mixes / child scripts / cancellation points: every job body ran exactly "
+            "once before destruction, never more bodies than lanes, one completion per launch after all output, status and "
+            "output match the child's scripted fate, environment precedence holds, nothing starts after cancelAllJobs() "
+            "returned, no child left behind, no ThreadSanitizer report.",
+            "Interleavings are sampled; the client waits for completions before destroying the queue (as the engine does).",
+            "DESIGN 2/C16"),
 }
 
 NOT_APPLICABLE = {
@@ -186,6 +194,8 @@ def main():
             "add_only": True,
         },
         "engines": [
+            {"name": "hypothesis+qsim", "path": "pbt/c16.py + harness/qsim.cpp + harness/childsim.c", "serves_properties": ["C16"],
+             "kind_free_text": "Hypothesis job-mix generator; qsim drives LaneBasedExecutionQueue/SerialQueue under TSan; childsim is the scripted child"},
             {"name": "hypothesis+llbuild-ninja", "path": "pbt/c18.py", "serves_properties": ["C18"],
              "kind_free_text": "Hypothesis histories driving the stock `llbuild ninja build` CLI over vtool workspaces"},
             {"name": "hypothesis+ninjadump+ninja", "path": "pbt/c17.py + harness/ninjadump.cpp", "serves_properties": ["C17"],
